@@ -268,6 +268,7 @@ class Run:
     evidence / replay / VIOLATION lines."""
 
     def __init__(self, prop, tier, replay=None):
+        self.floor_short = []
         self.prop = prop
         self.tier = tier
         self.t0 = time.time()
@@ -316,7 +317,9 @@ class Run:
             return
         n = self.counts.get(rule, 0)
         if n < minimum:
-            raise AnchorMissing("rule %s matched %d instances, floor is %d %s" % (rule, n, minimum, what))
+            # deferred: if the shortfall comes with violations of the same check, those are reported (exit 1);
+            # alone it means the rule went blind (exit 2)
+            self.floor_short.append("rule %s matched %d instances, floor is %d %s" % (rule, n, minimum, what))
 
     def require(self, cond, what):
         if not cond:
@@ -332,6 +335,9 @@ class Run:
     def note_analysed(self, what, n=1):
         self.analysed[what] = self.analysed.get(what, 0) + n
 
+    def unknown_failures(self):
+        return [o for o in self.obligations if not o["ok"] and o["key"] not in self.known]
+
     def finish(self, level="other", explanation="", trusted=None, extra=None):
         os.makedirs(os.path.join(VERIF, "evidence"), exist_ok=True)
         os.makedirs(os.path.join(VERIF, "replay"), exist_ok=True)
@@ -344,6 +350,8 @@ class Run:
                 known_hit.append(o)
             else:
                 viol.append(o)
+        if getattr(self, "floor_short", None) and not viol:
+            raise AnchorMissing("; ".join(self.floor_short))
         for o in known_hit:
             print("KNOWN-FINDING: property=%s %s [%s at %s]" % (
                 self.prop, self.known[o["key"]]["what"], o["key"], o["where"]))
